@@ -13,6 +13,7 @@ W    == atoi(IOEnv.GEN_W)
 L    == atoi(IOEnv.GEN_L)
 Cap  == atoi(IOEnv.GEN_CAP)
 Nm   == NamesOf(IOEnv.GEN_SCHEME)
+AllowZero == IOEnv.GEN_ZERO = "1"      \* also emit flows that leave some edges at 0 (conserving, non-negative)
 
 Part  == atoi(IOEnv.GEN_PART)      \* this process handles shapes with index = Part (mod Parts)
 Parts == atoi(IOEnv.GEN_PARTS)
@@ -26,7 +27,7 @@ RoutesOf(G) == IF Kind = "dag" THEN STPaths(G) ELSE STWalks(G, Cardinality(G.edg
 PlantedOf(G) ==
   LET R == RoutesOf(G)
       P == UNION {Plantings(R, 1..W, k) : k \in 1..K}
-      Pos == {p \in P : PositiveOn(G, FlowOf(G, p[1], p[2]))}
+      Pos == {p \in P : AllowZero \/ PositiveOn(G, FlowOf(G, p[1], p[2]))}
       Flows == {FlowOf(G, p[1], p[2]) : p \in Pos}
   IN {<<f, CHOOSE p \in Pos : FlowOf(G, p[1], p[2]) = f>> : f \in Flows}
 
